@@ -410,7 +410,7 @@ const c18Rule = "(a) generated expressions with identifiers in every position (p
 func TestC18_RapidExpressions(t *testing.T) {
 	rec := evid.New("C18", "TestC18_RapidExpressions", "C18.expr", c18Rule)
 	defer finish(t, rec)
-	cfg := &genCfg{vars: c18Idents, funcs: []string{"a", "abc", "Sum", "f", "Total"}, maxArgs: 3, identGen: c18IdentGen,
+	cfg := &genCfg{vars: c18Idents, funcs: []string{"a", "abc", "Sum", "f", "Total", "max", "ABS"}, maxArgs: 3, identGen: c18IdentGen,
 		consts: func(t *rapid.T) string {
 			return rapid.SampledFrom([]string{"1", "2.5", "'a'", "'AND'", "'abc'", "TRUE", "'if'", "'Total'"}).Draw(t, "const")
 		}}
@@ -675,6 +675,18 @@ func checkC18Coll(c c18CollCase) *evid.Fail {
 					fc.Add(f)
 				}
 				model = append(model, c18Entry{op.Name, nextID, nextID})
+			case "readd":
+				// the very object of an existing entry is added once more (two modules sharing one function, one variable
+				// registered twice): the list gets one more entry
+				if len(model) == 0 {
+					continue
+				}
+				if c.Kind == "variables" {
+					continue // one variable object under two entries shares its value by construction; functions have no state
+				}
+				e := model[op.Idx%len(model)]
+				fc.Add(funcsByID[e.id])
+				model = append(model, e)
 			case "find":
 				want := find(op.Name)
 				if c.Kind == "variables" {
@@ -827,7 +839,7 @@ func TestC18_RapidCollections(t *testing.T) {
 	defer finish(t, rec)
 	// the last five: spellings of one name whose UTF-8 lengths differ (U+2C65 / U+023A, U+017F / S / s)
 	names := []string{"a", "A", "b", "B", "ab", "Ab", "AB", "x", "q[", "q{", "r^", "r~", "k@", "k`", "é", "É", "ⱥb", "ȺB", "ſx", "SX", "sx"}
-	opKinds := []string{"add", "add", "add", "find", "find", "locate", "remove", "removeByName", "clear", "clearValues"}
+	opKinds := []string{"add", "add", "add", "find", "find", "locate", "remove", "removeByName", "clear", "clearValues", "readd"}
 	runRapid(t, pick(30000, 200000), 181818, func(rt *rapid.T) {
 		c := c18CollCase{Kind: rapid.SampledFrom([]string{"variables", "functions", "default-functions"}).Draw(rt, "kind")}
 		n := rapid.IntRange(1, 16).Draw(rt, "n")
@@ -872,7 +884,7 @@ func TestC18_ExhaustiveCollections(t *testing.T) {
 	rec.DupFree = true
 	defer finish(t, rec)
 	alpha := []c18CollOp{{Op: "add", Name: "a"}, {Op: "add", Name: "A"}, {Op: "add", Name: "b"}, {Op: "find", Name: "A"}, {Op: "find", Name: "B"}, {Op: "locate", Name: "a"}, {Op: "locate", Name: "c"},
-		{Op: "remove", Idx: 0}, {Op: "remove", Idx: 1}, {Op: "removeByName", Name: "A"}, {Op: "clear"}, {Op: "clearValues"}}
+		{Op: "remove", Idx: 0}, {Op: "remove", Idx: 1}, {Op: "removeByName", Name: "A"}, {Op: "clear"}, {Op: "clearValues"}, {Op: "readd", Idx: 0}}
 	depth := pick(4, 5)
 	rec.Bounds = fmt.Sprintf("all histories of length 1..%d over %d operations (add a/A/b, find A/B, locate a/c, remove index 0/1, removeByName A, clear, clearValues) x both collections", depth, len(alpha))
 	idx := make([]string, len(alpha))
@@ -895,7 +907,7 @@ func TestC18_ExhaustiveCollections(t *testing.T) {
 		}
 	})
 	// the collection of standard functions: the same list discipline from its 37 entries on
-	dalpha := []c18CollOp{{Op: "find", Name: "max"}, {Op: "find", Name: "RANDOM"}, {Op: "find", Name: "Array"}, {Op: "removeByName", Name: "MAX"}, {Op: "removeByName", Name: "random"},
+	dalpha := []c18CollOp{{Op: "readd", Idx: 5}, {Op: "find", Name: "max"}, {Op: "find", Name: "RANDOM"}, {Op: "find", Name: "Array"}, {Op: "removeByName", Name: "MAX"}, {Op: "removeByName", Name: "random"},
 		{Op: "remove", Idx: 0}, {Op: "remove", Idx: 36}, {Op: "add", Name: "Max"}, {Op: "add", Name: "zz"}, {Op: "find", Name: "ZZ"}, {Op: "clear"}}
 	didx := make([]string, len(dalpha))
 	for i := range dalpha {
